@@ -132,6 +132,7 @@ func (c *Connection) updateInFlight(f func(*inFlightState)) {
 	defer c.stateMu.Unlock()
 
 	s := &c.state
+	defer verifTrace(c, s)() // no-op unless built with -tags verif (conn_verif.go)
 
 	f(s)
 
